@@ -36,7 +36,7 @@ def coordinator_sessions(ctx):
     correspondence on directed and random sessions - and plays every session a second time with all peer addresses renamed
     (one-to-one, order reversed): the real coordinator must answer every connection exactly as before."""
     from props import coordcommon as CC
-    n = 120 if ctx.tier == "thorough" else 46
+    n = 120 if ctx.tier == "thorough" else 52
     CC.run_sessions(ctx, "C20", n, lambda rng: dict(n_events=rng.choice([30, 60]), burst=0.3, fault=0.1, bad=0.1, resets=0.2),
                     lambda rng: dict(required=rng.choice([1, 2, 2, 3]), max_steps=rng.choice([1, 2, 3])), rename=True)
     sub = dict(ctx.coverage)
@@ -72,7 +72,7 @@ def correspondence(ctx):
             ctx.stage_errors.append((f"worker {args}", err))
             continue
         if out["errors"]:
-            ctx.violations.append({"key": "task error", "what": f"a coordinator task raised during the probe session: {out['errors'][:1]}",
+            ctx.violations.append({"key": "task error", "what": f"a coordinator task raised during the probe session, or a join the configuration allows was refused: {out['errors'][:1]}",
                                    "replay": {"kind": "worker", "args": list(args)}})
         if out.get("second_run_equal") is False:
             ctx.violations.append({"key": f"a second game in the same process differs ({'dynamic' if dyn else 'static'} addresses)",
